@@ -343,7 +343,7 @@ func runC07(ctx *runCtx) {
 	for _, sc := range []struct {
 		name string
 		f    func(int) (string, string)
-	}{{"json-pool", jsonPoolScenario}, {"json-kept-results", jsonKeptResultsScenario}, {"json-nested-read", jsonNestedReadScenario}, {"stale-writer", func(n int) (string, string) { return staleWriterScenario(n, false) }},
+	}{{"json-pool", jsonPoolScenario}, {"json-kept-results", jsonKeptResultsScenario}, {"flate-writer-pool", flateWriterPoolScenario}, {"json-nested-read", jsonNestedReadScenario}, {"stale-writer", func(n int) (string, string) { return staleWriterScenario(n, false) }},
 		{"stale-writer-after-failed-ping", func(n int) (string, string) { return staleWriterScenario(n, true) }}, {"window-pool", windowPoolScenario}} {
 		sh, w := "", ""
 		func() {
